@@ -398,8 +398,10 @@ struct QExpression {
 
     bool operator^=(const QExpression &right) noexcept {
         SizeT64 num_right      = 0;
+        double  left_real      = 0.0;
         bool    left_negative  = false;
         bool    right_negative = false;
+        bool    left_real_base = false;
 
         switch (Type) {
             case ExpressionType::NaturalNumber: {
@@ -429,6 +431,13 @@ struct QExpression {
                     Value.Number.Natural = SizeT64{0};
                     Type                 = ExpressionType::NotANumber;
                     return false;
+                }
+
+                if ((Value.Number.Real < 9007199254740992.0) &&
+                    (double(SizeT64I(Value.Number.Real)) != Value.Number.Real)) {
+                    // A base with a fractional part is raised as a real number.
+                    left_real      = Value.Number.Real;
+                    left_real_base = true;
                 }
 
                 Value.Number.Natural = QNumber64{SizeT64I(Value.Number.Real)}.Natural;
@@ -466,7 +475,8 @@ struct QExpression {
                     right_real = -right_real;
                 }
 
-                if ((right_real < 1.0) && (right_real > 0.0)) {
+                if (((right_real < 1.0) && (right_real > 0.0)) ||
+                    ((right_real < 9007199254740992.0) && (double(SizeT64I(right_real)) != right_real))) {
                     // No power of fraction at the moment.
                     Value.Number.Natural = SizeT64{0};
                     Type                 = ExpressionType::NotANumber;
@@ -478,6 +488,28 @@ struct QExpression {
 
             default: {
             }
+        }
+
+        if (left_real_base && (num_right != SizeT64{0})) {
+            const bool right_odd = ((num_right & SizeT64{1}) == SizeT64{1});
+            double     result    = 1.0;
+
+            while (num_right != SizeT64{0}) {
+                if ((num_right & SizeT64{1}) == SizeT64{1}) {
+                    result *= left_real;
+                }
+
+                left_real *= left_real;
+                num_right >>= 1U;
+            }
+
+            if (right_negative) {
+                result = (1.0 / result);
+            }
+
+            Value.Number.Real = ((left_negative && right_odd) ? -result : result);
+            Type              = ExpressionType::RealNumber;
+            return true;
         }
 
         if (Value.Number.Natural != SizeT64{0}) {
